@@ -154,8 +154,12 @@ def _finish(m, exp, ctx, zero_neg, ub=None):
             n_eff = -K - 1
         else:
             n_eff = n
+        # the rounding is the identity when static bounds show that the exact result already is a member: its significand has at
+        # most p digits (bit length <= ub <= p) and all of them lie above the least digit position n of the format
+        if ub is not None and (p is None or ub <= p) and (n_eff is None or exp > n_eff):
+            R = mag
         # directed modes depend on the sign: build both and select
-        if rm in ('RTP', 'RTN'):
+        elif rm in ('RTP', 'RTN'):
             Rp = round_detail(mag, False, p, n_eff, rm, K)['R']; Rn = round_detail(mag, True, p, n_eff, rm, K)['R']
             R = z3.If(neg, Rn, Rp)
         else:
